@@ -26,6 +26,18 @@ func (l *Log) Take() []string {
 	l.l = nil
 	return r
 }
+
+// Has reports whether a recorded line starts with the prefix.
+func (l *Log) Has(prefix string) bool {
+	l.mu.Lock()
+	defer l.mu.Unlock()
+	for _, s := range l.l {
+		if len(s) >= len(prefix) && s[:len(prefix)] == prefix {
+			return true
+		}
+	}
+	return false
+}
 func (l *Log) Len() int {
 	l.mu.Lock()
 	defer l.mu.Unlock()
